@@ -9,6 +9,7 @@ From Coq.Strings Require Import String.
 From TS Require Import Bytes State Prog Ops Interp NopSpec StackLemmas ConfigSpec TaprootSpec TapeLemmas AuthSpec
   Builders BuilderSpec TaprootNonNative.
 From TS Require BuilderSourcesProofs.
+From TS Require TaprootFootprints.
 Import ListNotations.
 Local Open Scope nat_scope.
 
@@ -97,6 +98,15 @@ Example C05_nonnative_equivalence_refuted_call_budget :
   vres_of_auth (run_auth_scripts toy_orc (toy_cfg 1) 40 [toy_witness script; taproot_lock toy_root x00] []) = VBool true.
 Proof. exact differ_on_call_budget. Qed.
 
+(* third footprint (finding D23, proofs/TaprootFootprints.v): with flag 2 at its default the non-native lock's OP_DERIVE_POINT
+   leaves the tweak point in the cache under the bytes key X, which the committed script can read *)
+Example C05_nonnative_equivalence_refuted_cache_X :
+  let script := [x0a; x01; x58; x06; x01] in      (* read_cache x58 ; pop0 ; true *)
+  vres_of_auth (run_auth_scripts toy_orc (TaprootFootprints.toy_cfg_flag2 64) 40 [toy_witness script; nonnative_taproot_lock toy_root x00] []) = VBool true /\
+  vres_of_auth (run_auth_scripts toy_orc (TaprootFootprints.toy_cfg_flag2 64) 40 [toy_witness script; taproot_lock toy_root x00] []) = VBool false.
+Proof. exact TaprootFootprints.differ_on_cache_X. Qed.
+
+Print Assumptions C05_nonnative_equivalence_refuted_cache_X.
 Print Assumptions C05_nonnative_key_path_same_verdict.
 Print Assumptions C05_nonnative_script_path_both_exact.
 Print Assumptions C05_nonnative_equivalence_refuted_definition_0.
